@@ -2190,3 +2190,59 @@ func H_C05_crashRun(crash, mode int) {
 	verifAssert(psB.GetState(ctx) == Complete, "C05: an interrupted pipestance, restarted, runs to completion")
 	vsDiskMode, vsDisk = false, nil
 }
+
+// H_C11_resetJournal(mode): resetting a failed job removes its pending
+// notifications from the journal directory.  The directory also holds
+// notifications of jobs whose names merely start with the same text: a fork
+// whose map key extends this fork's key (fork_a / fork_ab), a stage whose name
+// extends this stage's name (ALIGN / ALIGN_STATS).  mode 0: the partial reset
+// of a failed split job of fork_a (Metadata.uncheckedReset); mode 1: the full
+// stage reset of ALIGN (Node.reset with full stage reset).
+//
+//	C11: only notifications written by the jobs being reset are removed; a
+//	     notification of another fork or stage is never lost.
+func H_C11_resetJournal(mode int) {
+	disableUniquification = false
+	top := vsTop()
+	node, f := vsStageNode(top, "ALIGN", true)
+	f.id = "fork_a"
+	f.split_metadata.journalPath = "/ps/journal/P.ALIGN.fork_a"
+	f.join_metadata.journalPath = f.split_metadata.journalPath
+	own := []string{"P.ALIGN.fork_a.split_errors", "P.ALIGN.fork_a.split_log"}
+	if mode == 1 {
+		own = append(own, "P.ALIGN.fork_a.chnk0.u0123456789.complete", "P.ALIGN.fork_b.join_complete")
+	}
+	foreign := []string{"P.ALIGN_STATS.fork_a.chnk0.complete", "P.ALIGN_STATS.fork0.split_complete"}
+	if mode == 0 {
+		// other forks of the same stage are not being reset
+		foreign = append(foreign, "P.ALIGN.fork_b.join_complete", "P.ALIGN.fork_ab.chnk0.complete")
+	} else {
+		own = append(own, "P.ALIGN.fork_ab.chnk0.complete")
+	}
+	vsJournalFiles = append(append([]string{}, foreign...), own...)
+	vsRemovedOne = nil
+	if mode == 0 {
+		f.split_metadata.contents[Errors] = struct{}{}
+		err := f.split_metadata.checkedReset()
+		verifAssert(err == nil, "a reset that meets no file-system error succeeds")
+	} else {
+		top.rt.Config.FullStageReset = true
+		err := node.reset()
+		verifAssert(err == nil, "a reset that meets no file-system error succeeds")
+	}
+	verifCover("journal cleaned on reset")
+	removed := func(name string) bool {
+		for _, r := range vsRemovedOne {
+			if r == "/ps/journal/"+name {
+				return true
+			}
+		}
+		return false
+	}
+	for _, name := range own {
+		verifAssert(removed(name), "C11: the pending notifications of a job that is reset are discarded with it")
+	}
+	for _, name := range foreign {
+		verifAssert(!removed(name), "C11: resetting a job never removes a notification written by another fork or stage whose name starts with the same text")
+	}
+}
